@@ -60,9 +60,19 @@ def check(F, rep, tier):
             if st[0] != "=" or len(st[1]) < 2: continue
             fl = [e for e in st[1][1:] if not isinstance(e, str) and e[0] == "f"]
             if not fl or not fl[-1][3].endswith("vars::ZervVars"): continue
-            srcs = {x.split(".")[-1] for x in mir.field_sources(F, m, st[2][1] if st[2][0] == "use" else ["c", {}]) if not x.startswith(("call:", "const:", "upvar:", "["))}
+            VCSF = {"commit_hash", "commit_hash_prefix", "commit_timestamp", "is_dirty", "current_branch", "distance", "tag_version", "tag_timestamp", "tag_commit_hash"}
+            def comps(x):
+                # "vcs_data.tag_version", "tag_version.as Some.0" (after `let VcsData { tag_version, .. } = vcs_data`), ...
+                parts = [p_ for p_ in re.split(r"[.\s]+", x) if p_]
+                hit = [p_ for p_ in parts if p_ in VCSF]
+                return set(hit) if hit else {parts[-1]} if parts else set()
+            srcs = set()
+            for x in mir.field_sources(F, m, st[2][1] if st[2][0] == "use" else ["c", {}]):
+                if not x.startswith(("call:", "const:", "upvar:", "[")): srcs |= comps(x)
             if st[2][0] == "agg":
-                for a in st[2][2]: srcs |= {x.split(".")[-1] for x in mir.field_sources(F, m, a) if not x.startswith(("call:", "const:", "upvar:", "["))}
+                for a in st[2][2]:
+                    for x in mir.field_sources(F, m, a):
+                        if not x.startswith(("call:", "const:", "upvar:", "[")): srcs |= comps(x)
             got.setdefault(fl[-1][2], set()).update(srcs)
         rep.floor("R02.1", "ZervVars fields wired from VcsData", len(got), 8)
         vcs_fields = {"commit_hash", "commit_hash_prefix", "commit_timestamp", "is_dirty", "current_branch", "distance", "tag_version", "tag_timestamp", "tag_commit_hash"}
